@@ -5,6 +5,7 @@ import (
 	"sort"
 	"strings"
 	"sync"
+	"time"
 
 	"github.com/DavidGamba/go-getoptions/verifrt"
 	vsync "github.com/DavidGamba/go-getoptions/verifrt/vsync"
@@ -162,6 +163,36 @@ var litmusSuite = []litmus{
 				record(out, mu, "sent")
 			} else {
 				record(out, mu, "closed")
+			}
+		},
+	},
+	{
+		name: "select over a result channel and a one-shot timer: either may come first",
+		want: []string{"result", "timeout"},
+		body: func(out *[]string, mu *sync.Mutex) {
+			res := verifrt.RegChan(make(chan string, 1))
+			verifrt.Go(func() { verifrt.Send(res, "r") })
+			tm := verifrt.NewTimer(20 * time.Microsecond)
+			sel := verifrt.Select(false, verifrt.RecvCase(res), verifrt.RecvCase(tm.C))
+			if sel.I == 0 {
+				record(out, mu, "result")
+			} else {
+				record(out, mu, "timeout")
+			}
+			tm.Stop()
+		},
+	},
+	{
+		name: "a stopped timer never fires",
+		want: []string{"quiet"},
+		body: func(out *[]string, mu *sync.Mutex) {
+			tm := verifrt.NewTimer(time.Hour)
+			tm.Stop()
+			sel := verifrt.Select(true, verifrt.RecvCase(tm.C))
+			if sel.I == 0 {
+				record(out, mu, "fired")
+			} else {
+				record(out, mu, "quiet")
 			}
 		},
 	},
